@@ -28,7 +28,7 @@ COMP_TYPES = ['verif_fixtures.Plain', 'verif_fixtures.Plain2',
               'verif_fixtures.Listener', 'verif_fixtures.LoadOnly',
               'verif_fixtures.Outer.Inner', 'verif_fixtures.sub.SubComp',
               'verif_fixtures.make_comp', 'verif_fixtures.legacy.Thing',
-              'verif_fixtures.Mutating']
+              'verif_fixtures.Mutating', 'verif_fixtures.LateDeco']
 PROC_TYPES = ['verif_fixtures.Proc1', 'verif_fixtures.ProcEarly',
               'verif_fixtures.ProcLate']
 OBJ_REFS = ['verif_fixtures.OBJ', 'verif_fixtures.Outer.Inner',
@@ -39,7 +39,7 @@ OBJ_REFS = ['verif_fixtures.OBJ', 'verif_fixtures.Outer.Inner',
             # importable names whose objects cannot be copied: a module, a
             # lock, a generator, an object that refuses
             'verif_fixtures.sub', 'verif_fixtures.LOCK', 'verif_fixtures.GEN',
-            'verif_fixtures.NOCOPY', 'json', 'os.path']
+            'verif_fixtures.NOCOPY', 'json', 'os.path', 'verif_fixtures.CYC']
 PLAIN_STRINGS = ['hello', ' spaced ', '', 'a$b', 'x ${verif_fixtures.OBJ} y',
                  'see $res{a}', ' ${verif_fixtures.OBJ}', '$ {x}', '$res',
                  '${}', '$RES{a}', '$handle', '$res{}', '$', '{a}', '}{',
@@ -89,6 +89,8 @@ class Interp:
         import verif_fixtures
         self.fx = verif_fixtures
         self.fx.LOG.clear()
+        if '__events__' in vars(verif_fixtures.LateDeco):
+            del verif_fixtures.LateDeco.__events__
         # every run starts with the package imported and the sub-module
         # 'legacy' not imported yet (its name is an attribute of the package)
         sys.modules.pop('verif_fixtures.legacy', None)
@@ -101,14 +103,16 @@ class Interp:
         it = self
 
         class ValHandle(d.Handle):
-            def __init__(self, name):
+            def __init__(self, name, tree='T1'):
                 self.name = name
+                self.tree = tree
                 self.loads = 0
 
             def load(self):
                 self.loads += 1
-                return ('resource', self.name, self.loads)
+                return ('resource', self.name, self.loads, self.tree)
 
+        self.ValHandle = ValHandle
         self.root = d.ResourceMap()
         self.res = {}
         for path in self.cfg['resources']:
@@ -371,6 +375,36 @@ class Interp:
         self.handle.clear()
         self.world = None
 
+    def op_move(self, op):
+        """The world handle is put into a second, independent resource tree
+        (the first one stays what it is): from now on the enclosing tree of
+        the handle - where $res{} / $handle{} are looked up - is that one."""
+        d = self.desper
+        root2 = d.ResourceMap()
+        res2 = {}
+        for path in self.cfg['resources']:
+            h = self.ValHandle(path, 'T2')
+            root2['/'.join(path.split('.'))] = h
+            res2[path] = h
+        root2[op[1]] = self.handle
+        self.old_root = self.root       # (kept alive, still a root)
+        self.root, self.res = root2, res2
+        self.handle.clear()
+        self.world = None
+        self.probes['handle_moved_to_another_tree'] += 1
+
+    def op_use_plain(self, op):
+        """An instance of the (still undecorated) class goes through some
+        other World as a plain component."""
+        w0 = self.desper.World()
+        e = w0.create_entity(self.fx.LateDeco())
+        w0.delete_entity(e, immediate=True)
+
+    def op_decorate(self, op):
+        self.desper.event_handler('on_add', 'on_world_load')(
+            self.fx.LateDeco)
+        self.probes['class_decorated_after_use'] += 1
+
     def op_clear_res(self, op):
         p = op[1]
         if p in self.res:
@@ -528,11 +562,19 @@ def generate(prop, run_seed, tier='quick', tolerate=frozenset()):
                     ['enable']]
         elif r < .5:    # the same file again, untouched
             ops += [['clear'], ['load'], ['enable']]
+        elif r < .6 and resources:
+            ops += [['move', rng.choice(['w', 'zz/w', 'zz/y/w'])],
+                    ['load'], ['enable']]
         elif r < .7 and resources:
             ops += [['clear_res', rng.choice(resources)], ['clear'],
                     ['load'], ['enable']]
         else:
             ops += [['load'], ['write', gen_desc(rng, resources)], ['load']]
+    if crng.random() < .15:
+        # a component class that becomes a handler late
+        k = crng.choice([0, 0, 3]) if len(ops) > 3 else 0
+        ops[k:k] = [['use_plain'], ['decorate']] if crng.random() < .7 \
+            else [['decorate']]
     if crng.random() < .4:
         ops.append(['dict', gen_desc(rng, [], refs_ok=False),
                     crng.random() < .5])
@@ -601,4 +643,6 @@ INFO = {'C15': {
 PROBES = {'C15': ['ref.object', 'ref.res', 'ref.handle', 'near_miss_string',
                   'nested_marker_passthrough', 'explicit_id',
                   'entity_without_components', 'handle_depth>=2',
-                  'reload_after_rewrite', 'dict_path', 'callbacks_checked']}
+                  'reload_after_rewrite', 'dict_path', 'callbacks_checked',
+                  'handle_moved_to_another_tree',
+                  'class_decorated_after_use']}
